@@ -257,9 +257,19 @@ def run(spec, out):
             import pickle
             if not foreign:
                 return
-            term, blob = foreign.pop()
+            item = foreign.pop()
+            term, blob, codec = item if len(item) == 3 else (item[0], item[1], "pickle")
             before = len(Unit._known)
-            u = pickle.loads(base64.b64decode(blob))
+            if codec == "json":
+                how = rng.choice(["decoder", "pydantic"])
+                if how == "decoder":
+                    u = json.loads(blob, cls=MeasuredJSONDecoder)
+                else:
+                    from pydantic import TypeAdapter
+                    u = TypeAdapter(Unit).validate_python(json.loads(blob))
+                count(f"foreign_json_documents_loaded/{how}")
+            else:
+                u = pickle.loads(base64.b64decode(blob))
             count("foreign_pickles_loaded")
             if len(Unit._known) > before:
                 count("registrations/unpickled-from-another-process")
